@@ -23,6 +23,7 @@ pub enum GT {
     GCx(Seq<GT>),
     GNil,                       // the empty list
     GCons(Box<GT>, Box<GT>),
+    GFn(Seq<char>, Seq<GT>),    // a function term that has not been evaluated: its name and the values of its arguments
     GBad,
 }
 
@@ -48,6 +49,7 @@ pub open spec fn ap(th: Theta, t: Unifiable) -> GT
             if tail_var { ap(th, *term) }
             else if *term == Unifiable::Nil { GT::GNil }
             else { GT::GCons(Box::new(ap(th, *term)), Box::new(ap(th, *next))) },
+        Unifiable::SFunction{name, terms} => GT::GFn(name@, ap_seq(th, terms@)),
         _ => GT::GBad,
     }
 }
@@ -259,6 +261,7 @@ pub proof fn lemma_ueq_ap(th: Theta, a: Unifiable, b: Unifiable)
             lemma_ueq_ap(th, *n1, *n2);
             assert((*t1 == Unifiable::Nil) == (*t2 == Unifiable::Nil));
         },
+        (Unifiable::SFunction{name: f1, terms: p}, Unifiable::SFunction{name: f2, terms: q}) => { lemma_ueq_ap_seq(th, p@, q@); },
         _ => {},
     }
 }
